@@ -10,7 +10,7 @@ STATES = ("-", "P", "L")
 STATE_NAME = {"-": "-", "P": "pattern", "L": "literal"}
 OWNERS = ("opaque", "openum", "struct", "enum")  # openum = #[diplomat::opaque] enum (has a destructor like an opaque struct)
 OPAQUE_OWNERS = ("opaque", "openum")
-METHODS = ("sm", "im")  # static method, self method
+METHODS = ("sm", "im", "wm")  # static method, self method, write-out method (the macro emits it through a separate branch)
 ALL_BACKENDS = ("c", "cpp", "js", "dart", "kotlin", "nanobind", "demo_gen")
 
 # `{0}` as prefix+suffix, suffix only, prefix only, infix: all must produce identifiers
@@ -244,6 +244,9 @@ def module_src(m):
         L.append("        pub fn sm(x: u8) -> u8 { x }")
     put("        ", _abi_line("method", st["method"], k, "im", m.get("words")), attr_line(a, "method", k))
     L.append("        pub fn im(%s) -> u8 { 7 }" % slf)
+    if "wm" in m.get("methods", METHODS):
+        put("        ", _abi_line("method", st["method"], k, "wm", m.get("words")))
+        L.append("        pub fn wm(x: u8, w: &mut DiplomatWrite) { let _ = (x, w); }")
     L.append("    }")
     if m.get("extra") == "sibling":
         L += ["    #[diplomat::opaque]", "    pub struct Zq%dU;" % k, "    impl Zq%dU {" % k, "        pub fn sm(x: u8) -> u8 { x }", "    }"]
